@@ -1,6 +1,7 @@
 package readline
 
 import (
+	"github.com/reeflective/readline/internal/core"
 	"github.com/reeflective/readline/internal/keymap"
 	"github.com/reeflective/readline/internal/zzverif"
 )
@@ -234,6 +235,86 @@ func ZZ_C16_TwoKills() {
 			zzverif.Block()
 		}
 		wait++
+	}
+	rl.Readline()
+}
+
+// ZZ_C16_AcrossCalls: the kill ring outlives the line. A kill command runs in one Readline
+// call, which is then left by Enter; in the next call on the same shell yank / vi-put-before on
+// the empty line must insert exactly what the kill removed.
+// params: mode, cmd, n
+func ZZ_C16_AcrossCalls() {
+	mode := zzverif.Param("mode")
+	cmd := zzverif.Param("cmd")
+	n := zzverif.ParamInt("n")
+	buf := zzverif.Runes("b", n)
+	for _, r := range buf {
+		zzverif.Assume(r >= 0x20 && r < 0x7f)
+	}
+	yankCmd := "yank"
+	if mode == keymap.ViCommand {
+		yankCmd = "vi-put-before"
+	}
+	first := &zzverif.Script{}
+	rl := zzSession(first)
+	var killed []rune
+	removed := 0
+	ran := false
+	w1 := 0
+	first.OnWait = func() {
+		switch w1 {
+		case 0:
+			rl.line.Set(zzCopy(buf)...)
+			if cmd == "kill-region" {
+				rl.cursor.Set(zzverif.IntRange("mark", 0, n))
+				rl.cursor.SetMark()
+			}
+			rl.cursor.Set(zzverif.IntRange("pos", 0, n))
+			if mode != keymap.Emacs {
+				rl.Keymap.SetMain(mode)
+			}
+			if mode == keymap.ViCommand {
+				rl.cursor.CheckCommand()
+			}
+			keys := zzKeysFor(rl, mode, cmd)
+			zzverif.Assume(keys != "")
+			orig := rl.Keymap.Commands()[cmd]
+			rl.Keymap.Register(map[string]func(){cmd: func() { ran = true; orig() }})
+			first.Chunks = [][]byte{[]byte(keys)}
+		case 1:
+			zzverif.Assume(ran)
+			removed = n - rl.line.Len()
+			killed = append([]rune(nil), rl.Buffers.GetKill()...)
+			if removed <= 0 {
+				zzverif.Block() // nothing was killed
+			}
+			zzverif.Assert(removed == len(killed), "kill-ring-holds-what-was-removed/"+cmd+"/across-calls")
+			first.Chunks = append(first.Chunks, []byte("\r"))
+		default:
+			zzverif.Block() // Enter did not leave the call
+		}
+		w1++
+	}
+	rl.Readline()
+	zzverif.Reach("first-call-returned")
+	second := &zzverif.Script{}
+	core.Stdin = second
+	w2 := 0
+	second.OnWait = func() {
+		switch w2 {
+		case 0:
+			if mode != keymap.Emacs {
+				rl.Keymap.SetMain(mode)
+			}
+			second.Chunks = [][]byte{[]byte(zzKeysFor(rl, mode, yankCmd))}
+		case 1:
+			zzverif.Reach("yanked")
+			zzverif.Note("killed", string(killed))
+			zzverif.Note("afteryank", string(*rl.line))
+			zzverif.Assert(zzSameRunes(killed, *rl.line), "yank-inserts-the-kill-of-the-previous-line/"+cmd)
+			zzverif.Block()
+		}
+		w2++
 	}
 	rl.Readline()
 }
